@@ -1180,7 +1180,16 @@ SEED_TRANSLATE += [
     ('\\q', '', 'xsd'), ('\\1(a)', '', 'xpath'), ('(a\\1)', '', 'xpath'), ('\\p{Is}', '', 'xsd'), ('a\\', '', 'xsd'),
     ('#\\2', 'x', 'xpath'), ('\\\t1[_]', 'x', 'xpath'), ('[\\-\\P{L}#]', '', 'xsd'), ('[\n-\\-\\c]', '', 'xsd'), ('[\\\\-\\s]', '', 'xsd'),
 ]
+SEED_TRANSLATE += [
+    # negated and positive category/block escapes outside a class under the i flag: the flag folds literals, never the
+    # members of a category, so the complement must not be folded either (only the positive form was directed before)
+    ('\\P{Lu}', 'i', 'xpath'), ('\\P{Ll}', 'i', 'xpath'), ('\\P{L}', 'i', 'xpath'), ('\\P{Nd}', 'i', 'xpath'),
+    ('\\P{IsBasicLatin}', 'i', 'xpath'), ('a\\P{Lu}b', 'i', 'xpath'), ('\\P{Lu}\\p{Ll}', 'i', 'xpath'),
+    ('\\P{Ll}+', 'is', 'xpath'), ('(\\P{Lu})\\1', 'i', 'xpath'), ('\\p{Ll}\\P{Ll}', 'im', 'xpath'),
+    ('\\P{Lu}', '', 'xpath'), ('\\P{Lu}', '', 'xsd'), ('\\p{IsBasicLatin}\\P{Lu}', 'ix', 'xpath'),
+]
 SEED_FUNCTIONS = [
+    ('aBc', '\\P{Ll}', 'i'), ('aBc', '\\P{Lu}', 'i'), ('aBc1', '\\P{L}', 'i'), ('xAby', 'a\\P{Lu}', 'i'),
     ('1ab2ab', '(a)(b)', ''), ('1ab2', '(a)b', ''), ('aa', '^a', ''), ('abc', '(a(b)?c)', ''), ('abcd', '((a)(b))((c)(d))', ''),
     ('1<2', '1', ''), ('a&b', 'b', ''), ('a\rb', 'b', ''), ('a\\b', '\\', 'q'), (' a', ' a', 'qx'), ('a.b', '.', 'q'),
     ('\\$x', 'x', ''), ('b', '(a)|b\\1', ''), ('ab', '(a)|\\1', ''), ('abcd', '(ab)|(a)', ''), ('a', '#', 'x'), ('abc', 'b*', ''),
